@@ -299,4 +299,93 @@ theorem proof_by_block_refines (c : Chain) (hl : Linked c) (p h : Nat) :
           simp only [decide_eq_decide]
           omega
 
+/-! ### the other reads -/
+
+theorem chain_reverse_split (c : Chain) (p : Nat) : c.reverse = (c.drop p).reverse ++ (c.take p).reverse := by
+  conv => lhs; rw [← List.take_append_drop p c]
+  rw [List.reverse_append]
+
+theorem state_refines (c : Chain) (p : Nat) (k : String) : ctrState (ofChain c p) k = specState c k := by
+  simp only [ctrState, ofChain, specState]
+  rw [chain_reverse_split c p, List.findSome?_append]
+  rfl
+
+theorem last_proof_refines (c : Chain) (p : Nat) : ctrLastProof (ofChain c p) = specLastProof c := by
+  simp only [ctrLastProof, ofChain, specLastProof]
+  rw [chain_reverse_split c p, List.findSome?_append]
+
+theorem policy_refines (c : Chain) (p : Nat) : ctrPolicy (ofChain c p) = specPolicy c := by
+  simp only [ctrPolicy, ofChain, specPolicy]
+  rw [chain_reverse_split c p, List.findSome?_append]
+
+theorem any_split (q : Block → Bool) (c : Chain) (p : Nat) : ((c.drop p).reverse.any q || (c.take p).any q) = c.any q := by
+  conv => rhs; rw [← List.take_append_drop p c]
+  rw [List.any_append, List.any_reverse, Bool.or_comm]
+
+theorem in_state_refines (c : Chain) (p : Nat) (op : String) : ctrInState (ofChain c p) op = specInState c op := by
+  simp only [ctrInState, ofChain, specInState]; exact any_split _ c p
+
+theorem known_refines (c : Chain) (p : Nat) (op : String) : ctrKnown (ofChain c p) op = specKnown c op := by
+  simp only [ctrKnown, ofChain, specKnown]; exact any_split _ c p
+
+theorem find_map_eq_findSome {β : Type} (q : Block → Bool) (g : Block → β) (l : List Block) :
+    (l.find? q).map g = l.findSome? (fun b => if q b then some (g b) else none) := by
+  induction l with
+  | nil => rfl
+  | cons a r ih =>
+    simp only [List.find?_cons, List.findSome?_cons]
+    cases hq : q a <;> simp [ih]
+
+theorem linked_height_inj (c : Chain) (hl : Linked c) (a b : Block) (ha : a ∈ c) (hb : b ∈ c)
+    (h : a.height = b.height) : a = b := by
+  obtain ⟨i, hi, rfl⟩ := List.getElem_of_mem ha
+  obtain ⟨j, hj, rfl⟩ := List.getElem_of_mem hb
+  rw [hl i hi, hl j hj] at h
+  subst h; rfl
+
+/-- **block_map_refines.**  For a chain of consecutive heights, `Center.BlockMap(h)` (temps first, then the
+permanent store) is the block map of height `h` of the committed chain. -/
+theorem block_map_refines (c : Chain) (hl : Linked c) (p h : Nat) :
+    ctrBlockMap (ofChain c p) h = specBlockMap c h := by
+  simp only [ctrBlockMap, ofChain, specBlockMap]
+  rw [find_map_eq_findSome, find_map_eq_findSome, find_map_eq_findSome]
+  rw [← List.findSome?_append]
+  symm
+  apply findSome_congr
+  · intro a
+    constructor
+    · intro ha
+      rw [← List.take_append_drop p c] at ha
+      simp only [List.mem_append, List.mem_reverse] at ha ⊢
+      exact ha.symm
+    · intro ha
+      simp only [List.mem_append, List.mem_reverse] at ha
+      rw [← List.take_append_drop p c]; simp only [List.mem_append]; exact ha.symm
+  · intro a b x y ha hb hx hy
+    by_cases h1 : a.height = h
+    · by_cases h2 : b.height = h
+      · have := linked_height_inj c hl a b ha hb (h1.trans h2.symm)
+        subst this
+        simp [h1] at hx hy
+        exact hx.symm.trans hy
+      · simp [h2] at hy
+    · simp [h1] at hx
+
+theorem last_block_map_refines (c : Chain) (p : Nat) : ctrLastBlockMap (ofChain c p) = specLastBlockMap c := by
+  simp only [ctrLastBlockMap, ofChain, specLastBlockMap]
+  cases hr : (c.drop p).reverse with
+  | nil =>
+    have hd : c.drop p = [] := by simpa using hr
+    have hp : c.length ≤ p := List.drop_eq_nil_iff.mp hd
+    simp [List.take_of_length_le hp]
+  | cons b r =>
+    have h1 : ((c.drop p).reverse).head? = some b := by rw [hr]; rfl
+    rw [List.head?_reverse, List.getLast?_drop] at h1
+    have hp : ¬ c.length ≤ p := by
+      intro hh
+      have : c.drop p = [] := List.drop_eq_nil_iff.mpr hh
+      simp [this] at hr
+    simp only [hp, if_false] at h1
+    simp [h1]
+
 end Mitum.C19
